@@ -343,12 +343,24 @@ func (m LazyArgumentMap) Keys() map[string]syntax.Exp {
 	return keys
 }
 
+// sortedKeys returns the keys of m in increasing order, so that errors and
+// text generated while iterating over them are repeatable.
+func sortedKeys[V any](m map[string]V) []string {
+	keys := make([]string, 0, len(m))
+	for k := range m {
+		keys = append(keys, k)
+	}
+	sort.Strings(keys)
+	return keys
+}
+
 func (m LazyArgumentMap) GoString() string {
 	var buf strings.Builder
 	if err := buf.WriteByte('{'); err != nil {
 		panic(err)
 	}
-	for i, v := range m {
+	for _, i := range sortedKeys(m) {
+		v := m[i]
 		if err := buf.WriteByte(' '); err != nil {
 			panic(err)
 		}
@@ -548,7 +560,8 @@ func (m MarshalerMap) GoString() string {
 	if err := buf.WriteByte('{'); err != nil {
 		panic(err)
 	}
-	for i, v := range m {
+	for _, i := range sortedKeys(m) {
+		v := m[i]
 		if err := buf.WriteByte(' '); err != nil {
 			panic(err)
 		}
